@@ -378,6 +378,16 @@ def run_r(res, module_names, select=None, root=None, seed=0):
             pass
         res.units.append({"unit": u.name, "fn": u.fn, "file": u.file, "backend": "ringcheck",
                           "callee_contracts_used": sorted(set(calls))})
+    for mn in module_names:
+        m = load_ring_module(mn)
+        for lem in getattr(m, "LEMMAS", []):
+            if select and not select("lemma." + lem.__name__):
+                continue
+            try:
+                for o in lem():
+                    res.add_ob(**o)
+            except Exception as e:
+                res.undecided.append(f"R lemma {lem.__name__}: {type(e).__name__}: {e}")
     res.solver_time["ringcheck_wall_s"] = round(time.time() - t0, 2)
     res.cmds.append("ringcheck: symbolic execution of the real fn AST (vfx ast) + exact polynomial normal form")
     if not getattr(res, "checker_cmd", None):
@@ -400,4 +410,7 @@ def _perturb(out):
         if isinstance(v, int):
             o2[k] = v + 1
             return o2
+    for k, v in out.items():
+        o2[k] = ring.VOpaque("perturbed")
+        return o2
     return o2
